@@ -22,11 +22,14 @@ CFGS = {
     "RecvDup": ("RecvDup", 3, BIG),
     "SendWrapSmall": ("SendWrapSmall", BIG, BIG),
     "RecvWrapSmall": ("RecvWrapSmall", 18, BIG),
-    "SendWrapReal": ("SendWrapReal", BIG, BIG),
-    "RecvWrapReal": ("RecvWrapReal", 65540, BIG),
+    "SendWrapReal": ("SendWrapReal", BIG, 3),
+    "SendWrapRealDeep": ("SendWrapReal", BIG, 5),
+    "RecvWrapReal": ("RecvWrapReal", 65540, 3),
+    "RecvWrapRealDeep": ("RecvWrapReal", 65540, 5),
     "SendBigWShort": ("SendBigWShort", BIG, BIG),
     "SendBigWFull": ("SendBigWFull", BIG, 1),
     "RecvBigW": ("RecvBigW", 5, 6),
+    "RecvDevfull": ("RecvDevfull", 4, BIG),
 }
 for name, (params, maxbase, maxhist) in CFGS.items():
     with open("MC_%s.cfg" % name, "w") as f:
